@@ -140,6 +140,17 @@ def num_hypot(a, b):
     return z3.If(z3.Or(is_inf(a), is_inf(b)), PInf, z3.If(z3.Or(is_nan(a), is_nan(b)), NaN, Fin(rsqrt(re(a) * re(a) + re(b) * re(b)))))
 
 
+def num_isclose(a, b, rtol=None, atol=None):
+    """numpy.isclose with the default tolerances: finite values within atol + rtol * |b| (1e-8 + 1e-5 |b|), or the same infinity; never for a NaN."""
+    rtol = z3.RealVal('1/100000') if rtol is None else rtol
+    atol = z3.RealVal('1/100000000') if atol is None else atol
+    d = re(a) - re(b)
+    absd = z3.If(d >= 0, d, -d)
+    absb = z3.If(re(b) >= 0, re(b), -re(b))
+    return z3.And(z3.Not(is_nan(a)), z3.Not(is_nan(b)),
+                  z3.Or(z3.And(is_fin(a), is_fin(b), absd <= atol + rtol * absb), z3.And(is_inf(a), a == b)))
+
+
 def num_lt(a, b):
     return z3.And(z3.Not(is_nan(a)), z3.Not(is_nan(b)),
                   z3.Or(z3.And(is_fin(a), is_fin(b), re(a) < re(b)),
